@@ -107,6 +107,7 @@ def PV(
 
 
 @xl.register()
+@xl.validate_args
 def SLN(
         cost: func_xltypes.XlNumber,
         salvage: func_xltypes.XlNumber,
